@@ -120,8 +120,8 @@ def run(prog, rep):
                   and any(k.arg is None for k in n.keywords) for h in private_closure(pt) for n in ast.walk(h.node)),
               "PROV-6", "reader creates objects via fmt.create(**arguments)", "ok",
               "parse_tag no longer builds the object from the collected arguments", pt.where)
-    map_stores = [n for h in private_closure(pt) for n in ast.walk(h.node) if isinstance(n, ast.Assign)
-                  and isinstance(n.value, ast.Call) and unparse(n.value.func).endswith(".map")]
+    map_stores = [n for h in private_closure(pt) for n in ast.walk(h.node) if isinstance(n, ast.Call)
+                  and isinstance(n.func, ast.Attribute) and n.func.attr == "map" and len(n.args) == 1]
     rep.check(bool(map_stores), "PROV-6", "reader maps element names through fmt.map", "ok",
               "parse_tag no longer maps odML element names to constructor keywords via fmt.map", pt.where)
 
@@ -308,24 +308,14 @@ def _skips_emission(g, branch, pol):
 
 
 def _root_tag_expr(prog, mod, func, expr, exact):
-    """is expr (possibly a local name) the text '<odML version="%s">' % FORMAT_VERSION (exact) or a
-    %-format starting with it whose first argument is FORMAT_VERSION?"""
-    from ..astutil import local_assignments
-    if isinstance(expr, ast.Name):
-        defs = local_assignments(func.node, expr.id)
-        if len(defs) != 1:
-            return False
-        expr = defs[0]
-    if not (isinstance(expr, ast.BinOp) and isinstance(expr.op, ast.Mod) and isinstance(expr.left, ast.Constant)
-            and isinstance(expr.left.value, str)):
+    """does expr denote the text '<odML version="' + FORMAT_VERSION + '">' (exact), or a text that starts with it?"""
+    from ..astutil import template_parts
+    parts = template_parts(func, expr)
+    if not parts or len(parts) < 3:
         return False
-    fmt = expr.left.value
-    prefix = '<odML version="%s">'
-    if exact and fmt != prefix:
+    (k0, v0), (k1, v1), (k2, v2) = parts[:3]
+    if not (k0 == "lit" and v0 == '<odML version="' and k1 == "hole" and k2 == "lit" and v2.startswith('">')):
         return False
-    if not fmt.startswith(prefix):
+    if exact and not (len(parts) == 3 and v2 == '">'):
         return False
-    args = expr.right.elts if isinstance(expr.right, ast.Tuple) else [expr.right]
-    if fmt.count("%s") != len(args) or fmt.count("%") != len(args):
-        return False
-    return ct.resolves_to_format_version(prog, mod, args[0])
+    return ct.resolves_to_format_version(prog, mod, v1)
